@@ -5141,6 +5141,82 @@ val d_run_d : cfg1 -> hdr -> dterm -> dupd list -> val0 list
 
 val dispatch_render : z -> val0 -> val0 option
 
+type rev2 =
+| RLock
+| RUnlock
+| RSend
+| RFeed
+| RFin of bool
+| RRemove
+
+val is_send : rev2 -> bool
+
+val is_feed : rev2 -> bool
+
+val is_fin : rev2 -> bool
+
+val count0 : (rev2 -> bool) -> rev2 list -> nat
+
+val before_send : rev2 list -> rev2 list
+
+val after_fin : rev2 list -> rev2 list
+
+val lock_run : bool -> rev2 list -> bool option
+
+val handshake_okb : bool -> rev2 list -> bool
+
+type rres = { rr_waiting : bool; rr_held : bool; rr_stuck : bool }
+
+val run_reader : bool -> bool -> rev2 list -> rres
+
+val observation : bool -> rev2 list -> z list
+
+val observation_okb : bool -> z list -> bool
+
+type cmd0 = { cm_start_ok : bool; cm_wait_ok : bool }
+
+val read_from_command : cmd0 -> rev2 list -> rev2 list * bool
+
+type src =
+| SChan
+| SInitCmd
+| STtyDefaultCmd
+| STtyWalker
+| SStdin
+
+val read_source : src -> bool -> cmd0 -> bool -> rev2 list
+
+val restart_trace : cmd0 -> rev2 list
+
+type cstate0 = { c_reading0 : bool; c_next0 : cmd0 option; c_held : bool;
+                 c_blocked : bool; c_stop : bool; c_leaked : nat }
+
+val c0 : cstate0
+
+type cev =
+| CSearchNew of cmd0 option
+| CReadNew
+| CReadFin
+| CQuit
+
+val do_terminate : cstate0 -> cstate0
+
+val do_restart : (cmd0 -> rev2 list) -> cmd0 -> cstate0 -> cstate0
+
+val c_step : (cmd0 -> rev2 list) -> cstate0 -> cev -> cstate0
+
+val c_run : (cmd0 -> rev2 list) -> cstate0 -> cev list -> cstate0
+
+val rev_code : rev2 -> z
+
+val as_src : z -> src
+
+val fin_failed : rev2 list -> bool
+
+val as_cev : val0 -> cev
+
+val dispatch_start : z -> val0 -> val0 option
+
 type modes = { m_1000 : bool; m_1002 : bool; m_1003 : bool; m_1006 : 
                bool; m_1015 : bool; m_2004 : bool; m_1049 : bool;
                m_25 : bool; m_7 : bool; m_saved : bool; m_orphan : bool;
